@@ -32,6 +32,27 @@ Theorem c14_build_tracks_all_ready : forall W wzero fexpr fsqrt start (ready : r
 Proof. exact tracks_all_ready. Qed.
 Print Assumptions c14_build_tracks_all_ready.
 
+(* Several pickers built by the SAME picker builder (the registered builder is one process-wide object shared
+   by every ClientConn).  A world history is any sequence of Builds (any ready sets: equal, smaller, overlapping,
+   empty) and operations addressed to any live picker.  Each picker sees exactly the operations addressed to it:
+   later Builds and other pickers' picks / completions cannot touch it ... *)
+Theorem c14_pickers_independent : forall W wzero fexpr fsqrt xs w p s,
+  nth_error w p = Some (Some s) ->
+  nth_error (wrun W wzero fexpr fsqrt w xs) p = Some (Some (run W wzero fexpr fsqrt s (wproj W p xs))).
+Proof. exact pickers_independent. Qed.
+Print Assumptions c14_pickers_independent.
+
+(* ... so a picker owns its connection slice: the picker built from ready set `order`, after ANY further world
+   history, still returns only SubConns of ITS ready set. *)
+Theorem c14_picker_owns_connections : forall W wzero fexpr fsqrt w xs start order s0 ys d i id u s' sp,
+  build start order = Some s0 ->
+  nth_error (wrun W wzero fexpr fsqrt w (xs ++ [WBuild W start order] ++ ys))
+            (List.length (wrun W wzero fexpr fsqrt w xs)) = Some (Some sp) ->
+  pick fsqrt sp d = Ok (i, id, u, s') ->
+  nth_error order i = Some id /\ In id order.
+Proof. exact picker_owns_connections. Qed.
+Print Assumptions c14_picker_owns_connections.
+
 (* In-flight = picks - completions for every connection after every history; never negative when every
    done func was called at most once. *)
 Theorem c14_inflight : forall W wzero fexpr fsqrt start order s0 ops i c,
@@ -358,3 +379,13 @@ Example c14_nonvacuous_shared_addr :
   | None => False
   end.
 Proof. vm_compute. split; reflexivity. Qed.
+
+(* Build {0,1,2}, pick on it, Build {1,2} (a rebuild with a smaller ready set), pick on both: the first picker still
+   returns one of ITS three SubConns and keeps its in-flight count *)
+Example c14_nonvacuous_two_pickers :
+  let w := wrun Q 0%Q fexprQ Z.sqrt []
+             [WBuild Q 3600000000000 [0; 1; 2]%nat; WOn Q 0 (Pick Q [(0, 0); (0, 0); (0, 0)]);
+              WBuild Q 3600000000000 [2; 1]%nat; WOn Q 1 (Pick Q []); WOn Q 0 (Pick Q [(2, 0); (2, 0); (2, 0)])] in
+  map (option_map (fun s => (map scid (conns s), map inflight (conns s)))) w =
+  [Some ([0; 1; 2]%nat, [1; 1; 0]); Some ([2; 1]%nat, [0; 1])].
+Proof. vm_compute. reflexivity. Qed.
